@@ -143,7 +143,8 @@ type rdStep struct {
 
 type rdCase struct {
 	Kind  string   `json:"kind"`
-	Sub   bool     `json:"sub"` // the directory is "d" below the mount, opened with path_open; else the pre-open itself
+	Mount string   `json:"mount,omitempty"` // as histCase.Mount; on fs.FS mounts the directory is mutated behind the mount
+	Sub   bool     `json:"sub"`             // the directory is "d" below the mount, opened with path_open; else the pre-open itself
 	Names []string `json:"names"`
 	Dirs  []bool   `json:"dirs"`
 	Steps []rdStep `json:"steps"`
@@ -153,6 +154,7 @@ type rdWorld struct {
 	*world
 	fd      int32
 	hostDir string
+	sub     string          // "d/" when the directory is the sub-directory d of the mount
 	set     map[string]bool // current entries: name -> is dir
 	steps   []rdStep
 
@@ -175,7 +177,7 @@ type rdWorld struct {
 }
 
 func newRdWorld(c rdCase) (*rdWorld, string) {
-	w, err := newWorld(1)
+	w, err := newWorld(1, c.Mount)
 	if err != nil {
 		return nil, "harness: " + err.Error()
 	}
@@ -183,20 +185,15 @@ func newRdWorld(c rdCase) (*rdWorld, string) {
 	r.hostDir = w.dirs[0]
 	if c.Sub {
 		r.hostDir = filepath.Join(w.dirs[0], "d")
-		if err := os.Mkdir(r.hostDir, 0o755); err != nil {
+		r.sub = "d/"
+		if err := w.hostCreate(0, "d", true, ""); err != nil {
 			w.close()
 			return nil, "harness: " + err.Error()
 		}
 	}
 	for i, n := range c.Names {
 		isDir := i < len(c.Dirs) && c.Dirs[i]
-		var err error
-		if isDir {
-			err = os.Mkdir(filepath.Join(r.hostDir, n), 0o755)
-		} else {
-			err = os.WriteFile(filepath.Join(r.hostDir, n), []byte("x"), 0o644)
-		}
-		if err != nil {
+		if err := w.hostCreate(0, r.sub+n, isDir, "x"); err != nil {
 			w.close()
 			return nil, "harness: " + err.Error()
 		}
@@ -268,6 +265,16 @@ func (r *rdWorld) apply(s rdStep) string {
 		if _, dup := r.set[s.Name]; dup || s.Name == "" {
 			return ""
 		}
+		if r.m.ReadOnly {
+			if err := r.hostCreate(0, r.sub+s.Name, s.Dir, "x"); err != nil {
+				return "harness: " + err.Error()
+			}
+			r.set[s.Name] = s.Dir
+			if r.passCalls > 0 {
+				r.tainted = true
+			}
+			return ""
+		}
 		pa, pl := r.putPath(memPath1, r.guestPath(s.Name))
 		var errno uint32
 		var msg string
@@ -292,6 +299,17 @@ func (r *rdWorld) apply(s rdStep) string {
 	case "del":
 		isDir, found := r.set[s.Name]
 		if !found {
+			return ""
+		}
+		if r.m.ReadOnly {
+			if err := r.hostRemove(0, r.sub+s.Name); err != nil {
+				return "harness: " + err.Error()
+			}
+			delete(r.set, s.Name)
+			r.removed[s.Name] = true
+			if r.passCalls > 0 {
+				r.tainted = true
+			}
 			return ""
 		}
 		pa, pl := r.putPath(memPath1, r.guestPath(s.Name))
@@ -528,7 +546,16 @@ func genNames(t *rapid.T, n int, taken map[string]bool) (names []string, dirs []
 // order; "." and ".." first), used only to aim buffer lengths at exact fits.
 func (r *rdWorld) upcoming(pos int) []int {
 	sizes := []int{25, 26}
-	if f, err := os.Open(r.hostDir); err == nil {
+	if r.mount == "mapfs" {
+		var ns []string
+		for n := range r.set {
+			ns = append(ns, n)
+		}
+		sort.Strings(ns)
+		for _, n := range ns {
+			sizes = append(sizes, 24+len(n))
+		}
+	} else if f, err := os.Open(r.hostDir); err == nil {
 		ns, _ := f.Readdirnames(-1)
 		f.Close()
 		for _, n := range ns {
@@ -641,6 +668,7 @@ func runReaddirProp(t *rapid.T) {
 		n = rapid.IntRange(26, 60).Draw(t, "n")
 	}
 	c := rdCase{Kind: "readdir", Sub: rapid.Bool().Draw(t, "sub")}
+	c.Mount = rapid.SampledFrom([]string{"dir", "dirfs", "dir", "mapfs", "dir", "dirfs"}).Draw(t, "mount")
 	c.Names, c.Dirs = genNames(t, n, map[string]bool{})
 	r, msg := newRdWorld(c)
 	if msg != "" {
@@ -673,6 +701,7 @@ func runReaddirProp(t *rapid.T) {
 	default:
 		lbl = append(lbl, "rd-dir-26-60")
 	}
+	lbl = append(lbl, "rd-mount-"+c.Mount)
 	b, _ := json.Marshal(c)
 	evid.Case(evid.Hash64("readdir", string(b)), r.cleanMulti, lbl...)
 	if r.cleanMulti && evid.WantSample("readdir", 2) {
